@@ -8,7 +8,8 @@
    byte, with the outpoints the vector lists - before the spec judges pycoin.
 3. spec -> code: every case printed by MC_TxWireReplay / MC_SpendableReplay is executed on
    pycoin (BTC and LTC): bytes, hex, parsed fields, re-serialisation, ids, unspents extension,
-   spendable text / dict / binary forms.
+   spendable text / dict / binary forms; every history printed by MC_TxWireHistory (ids and bytes
+   asked between edits of the fields) on one long-lived object and on fresh ones.
 4. code -> spec: seeded random transactions (sizes and counts beyond the grid) are serialised,
    parsed and hashed by pycoin; the log is validated by TLC against Trace_TxWire.
 """
@@ -73,6 +74,8 @@ def _count_class(ctx, rec):
                tuple(sorted({D.lenclass(len(D.expand(i["script"]))) for i in ins})),
                tuple(sorted({len(D.seq(i["wit"])) for i in ins}))[:3])
         ctx.case(key, 0)
+    elif rec["k"] == "whist":
+        ctx.case(("whist", len(D.seq(rec["start"]["ins"])), tuple(a["op"] for a in rec["acts"])), 0)
     else:
         s = rec["s"]
         ctx.case(("sp", tuple(s["amount"]), D.lenclass(len(D.expand(s["script"]))), tuple(s["bia"]), s["spent"]), 0)
@@ -142,6 +145,50 @@ def _rand_tx(rnd, big):
     return (_rand_u(rnd, 32), tuple(ins), outs, _rand_u(rnd, 32))
 
 
+def _rand_edit(rnd, Tx, tx):
+    """the owner of the object changes one of its fields (any public attribute, the object's own method,
+    or its lists); at least one input stays.  Returns the name of what was changed."""
+    nin, nout = len(tx.txs_in), len(tx.txs_out)
+    kinds = ["version", "lock_time", "sequence", "in.script", "previous_index", "set_witness", "attr_witness", "clear_witnesses",
+             "append_in", "append_out"] + (["amount", "out.script", "pop_out"] if nout else []) + (["pop_in"] if nin > 1 else [])
+    kind = rnd.choice(kinds)
+    i, o = rnd.randrange(nin), rnd.randrange(nout) if nout else 0
+    wit = [_rand_bytes(rnd, rnd.choice([0, 1, 33, 72, 253])) for _ in range(rnd.choice([0, 1, 2, 2]))]
+    if kind == "version":
+        tx.version = (tx.version + 1 + rnd.randrange(3)) % (1 << 32)
+    elif kind == "lock_time":
+        tx.lock_time = (tx.lock_time + 1 + rnd.randrange(3)) % (1 << 32)
+    elif kind == "sequence":
+        tx.txs_in[i].sequence = (tx.txs_in[i].sequence + 1) % (1 << 32)
+    elif kind == "in.script":
+        tx.txs_in[i].script = tx.txs_in[i].script + b"\x00"
+    elif kind == "previous_index":
+        tx.txs_in[i].previous_index = (tx.txs_in[i].previous_index + 1) % (1 << 32)
+    elif kind == "set_witness":
+        tx.set_witness(i, wit)
+    elif kind == "attr_witness":
+        tx.txs_in[i].witness = wit
+    elif kind == "clear_witnesses":
+        for t in tx.txs_in:
+            t.witness = []
+    elif kind == "append_in":
+        t = Tx.TxIn(bytes([rnd.randrange(256)]) * 32, rnd.randrange(4), _rand_bytes(rnd, rnd.choice([0, 1, 107])), _rand_u(rnd, 32))
+        if rnd.random() < 0.5:
+            t.witness = wit
+        tx.txs_in.append(t)
+    elif kind == "append_out":
+        tx.txs_out.append(Tx.TxOut(_rand_u(rnd, 64), _rand_bytes(rnd, rnd.choice([0, 1, 25]))))
+    elif kind == "amount":
+        tx.txs_out[o].coin_value = (tx.txs_out[o].coin_value + 1) % (1 << 64)
+    elif kind == "out.script":
+        tx.txs_out[o].script = tx.txs_out[o].script + b"\x51"
+    elif kind == "pop_out":
+        tx.txs_out.pop(o)
+    elif kind == "pop_in":
+        tx.txs_in.pop(i)
+    return kind
+
+
 def record_traces(seed, count, big):
     """drive pycoin on random transactions; log what it did (no expectation is computed here).
     -> (events, crashes): a codec that raises on a well-formed transaction is reported by the caller"""
@@ -203,6 +250,13 @@ def _record_one(rnd, sym, p, t):
     ev["parsed"] = D.project_tx(t2)
     ev["punspents"] = D.project_unspents(t2)
     ev["reser"] = t2.as_bin(include_unspents=True)
+    # HISTORY: the object has answered for its bytes and ids; now its owner changes a field and asks again
+    if len(p[1]) <= 20 and len(p[2]) <= 20 and rnd.random() < 0.5:
+        ev["edit"] = _rand_edit(rnd, Tx, tx)
+        ev["tx2"] = D.project_tx(tx)
+        ev["w_hash2"], ev["w_id2"], ev["hash2"], ev["id2"] = tx.w_hash(), tx.w_id(), tx.hash(), tx.id()
+        ev["bytes2"] = tx.as_bin()
+        ev["stripped2"] = tx.as_bin(include_witness_data=False)
     return ev
 
 
@@ -217,7 +271,9 @@ def _trace_json(ev):
             "us": [] if ev["us"] is None else [{"amount": D.limbs(a, 4), "script": D.rle(s)} for a, s in ev["us"]],
             "hasus": ev["us"] is not None,
             "input": D.rle(ev["input"]), "allow": ev["allow"],
-            "parsed": _abs_to_json(ev["parsed"]), "punspents": pu, "reser": D.rle(ev["reser"])}
+            "parsed": _abs_to_json(ev["parsed"]), "punspents": pu, "reser": D.rle(ev["reser"]),
+            "edited": "edit" in ev, "tx2": _abs_to_json(ev["tx2"]) if "edit" in ev else [],
+            "bytes2": D.rle(ev.get("bytes2", b"")), "stripped2": D.rle(ev.get("stripped2", b""))}
 
 
 def validate_traces(ctx, tjson, workers=1, quiet=False):
@@ -480,6 +536,17 @@ def _traces(ctx):
                 ctx.fail("C07|trace|%s|hash|%s|not-h256d-of-stripped" % (e["sym"], cls), "id differs from the spec's TxId term", {"event": {k: D._short(v) for k, v in e.items()}})
             if wh is not None and (e["w_hash"] != wh or e["w_id"] != wh[::-1].hex()):
                 ctx.fail("C07|trace|%s|w_hash|%s|not-h256d-of-wire" % (e["sym"], cls), "w_id differs from the spec's WTxId term", {"event": {k: D._short(v) for k, v in e.items()}})
+            if "edit" in e:
+                if "txid2" not in t:
+                    raise MachineryError("trace spec printed no id terms for the edited object of trace %d" % (a + i))
+                h2, wh2 = D.eval_term(t["txid2"]), D.eval_term(t["wtxid2"])
+                ctx.case(None, 1)
+                if e["hash2"] != h2 or e["id2"] != h2[::-1].hex():
+                    ctx.fail("C07|trace|%s|hash|after-edit|not-h256d-of-stripped" % e["sym"], "after the owner's edit (%s) of an object that had been asked "
+                             "for its ids, the id differs from the spec's TxId term of the current fields" % e["edit"], {"event": {k: D._short(v) for k, v in e.items()}})
+                if e["w_hash2"] != wh2 or e["w_id2"] != wh2[::-1].hex():
+                    ctx.fail("C07|trace|%s|w_hash|after-edit|not-h256d-of-wire" % e["sym"], "after the owner's edit (%s) of an object that had been asked "
+                             "for its ids, the witness id differs from the spec's WTxId term of the current fields" % e["edit"], {"event": {k: D._short(v) for k, v in e.items()}})
     ctx.sample({"trace": {k: D._short(v) for k, v in evs[0].items()}})
     # binding self-test: corrupt one logged field / one byte
     good = [i for i, e in enumerate(evs[:200]) if e.get("kind") is None and e["us"] is None and e["allow"] and len(e["tx"][2]) >= 1]
@@ -556,6 +623,18 @@ def run(ctx):
         bad["txid"]["arg"] = bad["txid"]["arg"] + ["00"]
         f = D.check_tx_record(bad, "BTC")
         _selftest(ctx, "replay_rejects_corrupted_id_term", any("|hash|" in k for k, _, _ in f))
+    # ... on one long-lived object: ids and bytes asked between edits of the fields
+    if not only or "history" in only:
+        for bad in (("badNoFields",) if q else ("badNoFields", "badNoWitness")):
+            r = ctx.tlc("MC_TxWireHistory", "MC_TxWireHistory_" + bad, workers=2, expect_ok=False, count=False, timeout=1200)
+            ctx.selftest("model_rejects_memo_" + bad[3:], (not r.ok) and r.violated == "AnswersOfCurrentFields")
+        first, _ = _replay(ctx, "MC_TxWireHistory", "MC_TxWireHistory_q" if q else "MC_TxWireHistory_t", "check_whist_record", SYMS, W, "whist")
+        bad = copy.deepcopy(first)
+        bad["outs"][-1]["facts"]["wtxid"]["arg"] = bad["outs"][-1]["facts"]["wtxid"]["arg"] + ["00"]
+        bad["outs"][-1]["facts"]["txid"]["arg"] = bad["outs"][-1]["facts"]["txid"]["arg"] + ["00"]
+        bad["outs"][-1]["facts"]["wire"] = bad["outs"][-1]["facts"]["wire"] + ["00"]
+        f = D.check_whist_record(bad, "BTC")
+        _selftest(ctx, "history_rejects_corrupted_expectation", any("not-of-current-fields" in k for k, _, _ in f))
     if not only or "sp" in only:
         first, _ = _replay(ctx, "MC_SpendableReplay", "MC_SpendableReplay_q" if q else "MC_SpendableReplay_t", "check_sp_record", ("BTC",), W, "sp")
         bad = copy.deepcopy(first)
@@ -578,7 +657,7 @@ def replay(ctx, obj):
         print(json.dumps(obj, indent=1)[:4000])
         print("(a recorded trace, not an enumerated case: the record above is the failing run)")
         return
-    f = D.check_tx_record if case.get("k") == "tx" else D.check_sp_record
+    f = D.check_tx_record if case.get("k") == "tx" else D.check_whist_record if case.get("k") == "whist" else D.check_sp_record
     fails = f(case, d.get("sym", "BTC"))
     print("case: %s" % json.dumps(_brief(case))[:3000])
     for key, what, detail in fails:
